@@ -51,7 +51,7 @@ NP_FRESH = {
     "int8", "int16", "int32", "int64", "uint8", "uint16", "uint32", "uint64", "float32", "float64", "float16", "float128",
     "complex64", "complex128", "bool_", "str_", "bytes_", "object_", "intp", "int_", "float_",
     "random.RandomState", "random.default_rng", "random.random", "random.uniform", "random.normal", "random.seed",
-    "random.randint", "random.permutation", "linalg.inv", "linalg.solve", "linalg.lstsq", "linalg.det", "linalg.eig", "linalg.cholesky",
+    "random.randint", "random.permutation", "random.randn", "random.rand", "random.standard_normal", "random.random_sample", "random.lognormal", "linalg.inv", "linalg.solve", "linalg.lstsq", "linalg.det", "linalg.eig", "linalg.cholesky",
     "linalg.norm", "linalg.svd", "linalg.pinv", "fromstring", "fromfile", "fromiter", "loadtxt", "savetxt", "save", "load", "tril_indices",
     "triu_indices", "array_str", "array_repr", "array2string", "lexsort", "in1d", "isin", "intersect1d", "union1d", "setdiff1d",
     "flatnonzero", "argwhere", "extract", "compress", "choose", "select", "take", "trace", "roll", "delete", "insert", "resize", "pad",
@@ -129,6 +129,7 @@ EXT_CALLBACK = {"scipy.optimize.fsolve": 0, "scipy.optimize.leastsq": 0, "leasts
 C_MODULES = {"_chist", "_cosmolib", "htmc", "records", "_gauleg", "_cgauleg", "_stat_util"}
 C_TABLE = {
     "_chist.chist": (4, 5),                      # (data, dmin, sortind, binsize, hist OUT, revind OUT)
+    "_cgauleg.cgauleg": (),                      # (x1, x2, npts) scalars -> two new arrays
     "_cosmolib.cosmo": (),                       # constructor, scalars only
     "_cosmolib.cosmo.*": (),                     # Dc/Dm/Da/Dl/scinv [_vec1/_vec2/_2vec], dV[_vec], V, ez_inverse[_vec], ez_inverse_integral, DH, ...
     "htmc.HTMC": (),                             # constructor(depth)
@@ -481,12 +482,12 @@ class Extractor:
         self.emit(("bind", t, list(av.alias)))
         return AV([t], const=av.const, obj=av.obj, elts=av.elts, kind=av.kind, ref=av.ref, nn=av.nn)
 
-    def conservative(self, what, avs, node, fr):
-        """fail closed: every argument may be written, the result may alias all of them"""
+    def conservative(self, what, avs, node, fr, readonly=()):
+        """fail closed: every argument may be written, the result may alias all of them (and the values in `readonly`)"""
         self.note("UNKNOWN %s: treated as writing and aliasing all its operands" % what, node, fr)
         for a in avs:
             self.write(a, fr)
-        return union(avs)
+        return union(list(avs) + list(readonly))
 
     # ------------------------------------------------------------------ name resolution
     def resolve_import(self, ent, depth=0):
@@ -1025,7 +1026,10 @@ class Extractor:
                 m = self.find_method(f.obj[1], "__call__")
                 if m is not None and m[0] == "py":
                     return self.inline(m[2].mod, m[1], m[2], [f] + pos, kw, star_unknown, e, fr)
-            return self.conservative("call of %s" % self.src(e.func), [f] + allargs, e, fr)
+            # the CALLED value itself is not an operand that can be written: an ndarray (or a container of arrays) is not
+            # callable (the call raises TypeError before anything happens) and a function object owns no array buffer; bound
+            # methods of unknown receivers are "umeth" references and never reach this point.  The result may still alias it.
+            return self.conservative("call of %s" % self.src(e.func), allargs, e, fr, readonly=[f])
         k = r[0]
         if k == "es":
             _, mod, fdef, cls, selfav = r
